@@ -263,7 +263,7 @@ pub fn classify_infix(nam: &Nam, infix: &str) -> Option<Kind> {
             let fmt = nam.ts_format()?;
             let (ts_part, restart) = match infix.split_once(".restart-") {
                 Some((t, r)) => {
-                    if r.len() == 4 && r.bytes().all(|b| b.is_ascii_digit()) {
+                    if r.len() >= 4 && r.bytes().all(|b| b.is_ascii_digit()) {
                         (t, Some(r.parse::<u32>().ok()?))
                     } else {
                         return None;
